@@ -96,8 +96,10 @@ class H:
         self.values[name] = v
         return v
 
-    def real(self, name, lo=None, hi=None, strict=True, default=None):
-        """Input variable in the (open if strict) box (lo, hi)."""
+    def real(self, name, lo=None, hi=None, strict=True, default=None, sample=None):
+        """Input variable in the (open if strict) box (lo, hi).  `sample`: narrower interval for
+        random plain-float validation points (where float64 is well conditioned); the solver's
+        claim is for the whole box."""
         if self.mode == "sym":
             t = z3.Real(name)
             e = core.cur()
@@ -107,16 +109,18 @@ class H:
                 e.add_side(t < toz3(hi) if strict else t <= toz3(hi))
             self.inputs.append((name, t, lo, hi))
             return Sym(t)
+        if sample is not None and name not in self.values and not (default is not None and self.use_defaults):
+            self.values[name] = self.rng.uniform(*sample)
         v = self._value(name, lo, hi, default)
         self.inputs.append((name, None, lo, hi))
         if self.mode == "fold":
             return Sym(z3.RealVal(Fraction(v)))
         return v
 
-    def reals(self, prefix, shape, lo=None, hi=None, strict=True):
+    def reals(self, prefix, shape, lo=None, hi=None, strict=True, sample=None):
         a = np.empty(shape, dtype=object if self.symbolic else float)
         for idx in np.ndindex(*a.shape):
-            a[idx] = self.real(prefix + "_" + "_".join(map(str, idx)), lo, hi, strict)
+            a[idx] = self.real(prefix + "_" + "_".join(map(str, idx)), lo, hi, strict, sample=sample)
         return a
 
     def fresh(self, name, lo=None, hi=None, strict=True, default=None):
@@ -355,7 +359,8 @@ def _symval(a):
 class HarnessDef:
     def __init__(self, name, fn, cases_quick, cases_thorough=None, max_paths=200,
                  timeout_s=60, timeout_s_thorough=None, axioms=(), encodes=(), doc="",
-                 random_validation=3, finding_tags=None, concrete_alarms=True, feas_timeout_ms=1500):
+                 random_validation=3, finding_tags=None, concrete_alarms=True, feas_timeout_ms=1500,
+                 validation_rtol=1e-6):
         self.name = name
         self.fn = fn
         self.cases_quick = cases_quick
@@ -374,6 +379,9 @@ class HarnessDef:
         # outside the contract the solver reasons under.
         self.concrete_alarms = concrete_alarms
         self.feas_timeout_ms = feas_timeout_ms
+        # conc (float64) vs fold (exact rationals) agreement: ill-conditioned kernels such as
+        # finite differences with tiny steps need a looser bound (rounding ~ eps/dx^n)
+        self.validation_rtol = validation_rtol
 
 
 def _run_mode(hdef, case, mode, values=None, seed=0, use_defaults=True):
@@ -423,6 +431,30 @@ def _model_values(model, h, engine, subst=None, pur=None):
     return vals
 
 
+def _values_from_point(pt, h, pur):
+    """input values from a numeric point {purified z3 var: float}"""
+    from . import numsearch
+    variables = list(pt.keys())
+    comp = numsearch._Comp(variables)
+    x = [pt[v] for v in variables]
+    vals = {}
+    for name, t, lo, hi in h.inputs:
+        if t is None:
+            continue
+        try:
+            vals[name] = float(comp.num(pur(t))(x))
+        except Exception:  # noqa: BLE001 - variable not in the formula: any admissible value
+            if lo is not None and hi is not None:
+                vals[name] = 0.5 * (float(lo) + float(hi))
+            elif lo is not None:
+                vals[name] = float(lo) + 1.0
+            elif hi is not None:
+                vals[name] = float(hi) - 1.0
+            else:
+                vals[name] = 0.0
+    return vals
+
+
 def _block(model, h):
     lits = []
     for name, t, _lo, _hi in h.inputs:
@@ -436,6 +468,7 @@ def _block(model, h):
 def run_job(hdef, case, tier="quick", seed=0, replay_budget=6):
     """Symbolic exploration + discharge + replay + validation of one (harness, case)."""
     t0 = time.time()
+    job_budget = float(os.environ.get("VERIF_JOB_BUDGET_S", "480" if tier == "quick" else "3000"))
     timeout_s = hdef.timeout_s if tier == "quick" else hdef.timeout_s_thorough
     stats = {
         "harness": hdef.name, "case": _case_repr(case), "paths": 0, "aborted": 0,
@@ -461,7 +494,8 @@ def run_job(hdef, case, tier="quick", seed=0, replay_budget=6):
 
     try:
         results, info = explore(body, max_paths=hdef.max_paths,
-                                timeout_ms=int(min(timeout_s, 30) * 1000), engine_setup=setup)
+                                timeout_ms=int(min(timeout_s, 30) * 1000), engine_setup=setup,
+                                deadline=t0 + 0.6 * job_budget)
     except HarnessError as ex:
         stats["errors"].append(f"harness error: {ex}")
         stats["wall_s"] = time.time() - t0
@@ -512,7 +546,7 @@ def run_job(hdef, case, tier="quick", seed=0, replay_budget=6):
         solver.add(axioms)
         # ---- vacuity twin: the path itself must be satisfiable
         t = time.time()
-        r = str(solver.check())
+        r = core.timed_check(solver, min(timeout_s, 10) * 1.2)
         stats["solver_s"] += time.time() - t
         stats["queries"] += 1
         path_model = None
@@ -556,6 +590,11 @@ def run_job(hdef, case, tier="quick", seed=0, replay_budget=6):
                     f"concretely: {type(ex).__name__}: {ex}")
         # ---- obligations
         for name, claim, opts in h.obligations:
+            if time.time() - t0 > job_budget:
+                stats["inconclusive"].append(f"{hdef.name}{_case_repr(case)}:{name}: job time budget "
+                                             f"({int(job_budget)} s) exhausted before this obligation")
+                stats["unknown"] += 1
+                continue
             drop_pc = opts["drop_pc"]
             subst = opts["subst"]
             raw_claim = claim
@@ -598,7 +637,7 @@ def run_job(hdef, case, tier="quick", seed=0, replay_budget=6):
                 pre.add(coned)
                 pre.add(z3.Not(claim))
                 t = time.time()
-                r0 = str(pre.check())
+                r0 = core.timed_check(pre, timeout_s * 1.2)
                 stats["solver_s"] += time.time() - t
                 stats["queries"] += 1
                 if r0 == "unsat":
@@ -633,7 +672,7 @@ def run_job(hdef, case, tier="quick", seed=0, replay_budget=6):
                         continue
             for _attempt in range(replay_budget):
                 t = time.time()
-                r = str(osolver.check())
+                r = core.timed_check(osolver, timeout_s * 1.2)
                 stats["solver_s"] += time.time() - t
                 stats["queries"] += 1
                 if r == "unsat":
@@ -664,9 +703,28 @@ def run_job(hdef, case, tier="quick", seed=0, replay_budget=6):
                 stats["inconclusive"].append(f"{hdef.name}{_case_repr(case)}:{name}: sat models "
                                              "did not reproduce concretely")
             else:
-                # the solver could not decide: use random concrete executions as a model
-                # finder (a failing real execution is a counterexample whatever found it)
+                # the solver could not decide.  (1) numeric model finder on the purified
+                # formula; its candidate is replayed like any z3 model and only a reproduced
+                # failure counts.
                 found = None
+                if not subst:
+                    try:
+                        from . import numsearch
+                        pt = numsearch.find_model(base, z3.Not(claim), seed=seed, budget_s=min(8.0, timeout_s))
+                    except Exception:  # noqa: BLE001
+                        pt = None
+                    if pt is not None:
+                        vals = _values_from_point(pt, h, pur)
+                        hc, oc = _run_mode(hdef, case, "conc", vals, seed)
+                        if oc[0] != "abort" and [n for n, ok in hc.obligations if n == name and not ok]:
+                            stats["sat_replayed"] += 1
+                            stats["violations"].append({
+                                "harness": hdef.name, "case": case, "obligation": name, "values": vals,
+                                "detail": "z3 returned unknown; candidate model from numeric search on the "
+                                          "same formula reproduced by concrete re-execution"})
+                            continue
+                # (2) random concrete executions as a model finder (harnesses without
+                # iteration stubs only)
                 for k in range(12 if hdef.concrete_alarms else 0):
                     hc, oc = _run_mode(hdef, case, "conc", None, seed * 131 + k, use_defaults=False)
                     if oc[0] != "abort" and [n for n, ok in hc.obligations if n == name and not ok]:
@@ -722,7 +780,8 @@ def _validate(hdef, case, vals, seed, stats, use_defaults=True):
         return
     stats["validated_points"] += 1
     for n, ok in hc.obligations:
-        if not ok and (hdef.concrete_alarms or vals is not None):
+        # (the deterministic default point is an ordinary concrete test and always counts)
+        if not ok and (hdef.concrete_alarms or vals is not None or use_defaults):
             stats["violations"].append({
                 "harness": hdef.name, "case": case, "obligation": n, "values": dict(hc.values),
                 "detail": "obligation fails in a plain-float execution of the real code at a "
@@ -737,7 +796,7 @@ def _validate(hdef, case, vals, seed, stats, use_defaults=True):
         except HarnessError:
             continue
         cv = float(co[name])
-        if not abs(fv - cv) <= 1e-7 * max(1.0, abs(fv), abs(cv)):
+        if not abs(fv - cv) <= hdef.validation_rtol * max(1.0, abs(fv), abs(cv)):
             stats["errors"].append(
                 f"translator validation mismatch {hdef.name}{_case_repr(case)} {name}: "
                 f"float={cv!r} symbolic={fv!r}")
